@@ -463,7 +463,7 @@ impl Check for AddrCheck {
         Spec {
             id: "C18",
             level: "exploration",
-            rule: "generated: codec (Bech32 / Bech32m / default MockApi), valid lower-case prefix (pool + random 1-83 chars over ASCII 33-126 incl. '1' and punctuation), canonical bytes of 1-64 bytes (zero, FF, random), two names (ASCII, unicode, empty, long), and 0-6 corruptions (substitution from charset or foreign chars, case flip, upper-casing, other variant, other prefix, truncate, extend, separator removal, insertion, swap, padding bits, extra symbol, or ALL single-character substitutions); every resulting string is judged by an independent reference decoder and addr_validate/addr_canonicalize must agree; round trips, determinism and trait/Api agreement checked on every case. Non-trivial: >=1 corruption applied and (canonical length != 32 or prefix contains '1' or punctuation); distinct = distinct serialised case",
+            rule: "generated: codec (Bech32 / Bech32m / default MockApi), valid lower-case prefix (pool + random 1-83 chars over ASCII 33-126 incl. '1' and punctuation), canonical bytes of 1-64 bytes (zero, FF, random), two names (ASCII, unicode, empty, long; plus, as names, the made address itself and a valid address of the same codec), and 0-6 corruptions (substitution from charset or foreign chars, case flip, upper-casing, other variant, other prefix, truncate, extend, separator removal, insertion, swap, padding bits, extra symbol, or ALL single-character substitutions); every resulting string is judged by an independent reference decoder and addr_validate/addr_canonicalize must agree; round trips, determinism and trait/Api agreement checked on every case. Non-trivial: >=1 corruption applied and (canonical length != 32 or prefix contains '1' or punctuation); distinct = distinct serialised case",
             assumptions: vec![
                 "prefixes are lower-case valid HRPs (encoders only emit lower case; an Api built with an upper-case prefix cannot validate its own output)",
                 "sha256 collisions do not occur between generated names",
@@ -582,6 +582,21 @@ impl Check for AddrCheck {
         ensure!(matches!(&ca, Ok(x) if x.as_slice() == digest.as_slice()), "C18:roundtrip-bytes", "canonicalize(addr_make) = {:?}", ca);
         let ha = api.api().addr_humanize(&CanonicalAddr::from(digest.clone()));
         ensure!(matches!(&ha, Ok(x) if x == &a), "C18:roundtrip-text", "humanize(canonicalize(a)) = {:?} != {:?}", ha, a);
+        // names that are themselves addresses of this codec (the made address, and the humanised
+        // arbitrary bytes): still names like any other
+        for (what, nm) in [("the address made from the first name", a.as_str()), ("a valid address of this codec", h.as_str())] {
+            let aa = match catch(|| api.addr_make(nm)) {
+                Ok(x) => x,
+                Err(p) => fail!("C18:addr-make-panics", "addr_make({:?}) ({}) panicked: {}", nm, what, p),
+            };
+            ensure!(aa.as_str() != nm, "C18:addr-make-collision", "addr_make({:?}) returns its argument: the name {:?} and the name {:?} give the same address", nm, case.name, nm);
+            let dg = Sha256::digest(nm.as_bytes()).to_vec();
+            match ref_decode(aa.as_str(), prefix, v) {
+                RefDecode::Canonical(b) => ensure!(b == dg, "C18:addr-make-payload", "addr_make({:?}) = {:?} carries {} instead of sha256(name)", nm, aa, hexs(&b)),
+                other => fail!("C18:addr-make-not-valid", "addr_make({:?}) = {:?} is not valid under its own codec/prefix: {:?}", nm, aa, other),
+            }
+        }
+        cx.label("addr-make:name-is-an-address");
         // different name / prefix / variant => different address, rejected by the foreign codec
         let b = api.addr_make(&case.name2);
         ensure!(a != b, "C18:addr-make-collision", "names {:?} and {:?} give the same address {:?}", case.name, case.name2, a);
